@@ -8,6 +8,7 @@
     the state produced by NewPersistentBlockList + NewPeriodicSyncer, for any
     persistent state, any allocator answers, any hash seeds. *)
 From BBS Require Import Common.Sx Persist.PBL Persist.PBLProofs Persist.Syncer Persist.SyncerProofs Run.R07.
+From BBS Require Import Persist.LiveActs Persist.LiveCover Persist.LiveRelease Persist.LiveFair Persist.LiveTop.
 Local Open Scope nat_scope.
 
 (** No schedule makes any step panic: in particular no wake-up channel is
@@ -135,27 +136,94 @@ Theorem put_rank_partial : forall cfg alloc oldest init t0 s, reachable cfg allo
 Proof. exact put_rank_reach. Qed.
 Print Assumptions put_rank_partial.
 
-(** NOT PROVED (kept as the full statements; what is proved instead is the
-    `_never_stalls` pair (never disabled while work is pending), the retry
-    theorems and the per-cycle `_rank_partial` pair; missing is the link from
-    "a cycle completes" to "THIS upload / THESE blocks are covered", which
-    needs ghost state relating [s_writes] to acknowledged uploads, and the
-    fair-schedule liveness corollary):
+(** ---- COVERAGE (the link from "a commit cycle completes" to "THIS upload /
+    THESE blocks are covered"; ghost bookkeeping = functions of the executed
+    schedule, Persist/LiveActs.v: [act_of s e] = the PersistentBlockList call
+    performed by step [e] in state [s]; [sync_starts] = NotifySyncStarting
+    followed by a DataSyncer call; [sync_completes] = NotifySyncCompleted;
+    [AGetState t] = loop t calls GetPersistentState and starts
+    WritePersistentState; [AWritten t] = NotifyPersistentStateWritten). ---- *)
 
-    put_rank / release_rank : sys -> nat -> nat  (target = number of blocks to be
-    released resp. absolute epoch to be committed) with
-      (a) every own non-failure step of the loop decreases the rank when it is > 0;
-      (b) a failed I/O step increases it by at most one loop length K and is followed by a retry;
-      (c) steps of other threads never increase it;
-      (d) rank 0 <-> a state write omitting the released blocks (they are in releasedLog)
-          resp. covering the epoch has completed ([s_writes]);
-      liveness : forall tr, run cfg s tr = Some (Ok s') ->
-          (number of own non-failure steps in tr) >= rank s + K * (failures in tr) -> rank s' = 0
-      (weak fairness and finitely many failures as hypotheses), and
-      upload_commit_bound (the state write starts no later than max(t, last)+interval plus I/O steps).
-    The correspondence monitor checks the observable consequence on every
-    implementation run (clauses 1, 4, 5, 6 of Run/R07.v: pending work with an
-    idle loop; completed write not covering an acknowledged upload). *)
+(** upload_covered_by_next_commit.  The whole schedule is
+      ... (reaching s1) ; finalizer k returns FinOk off [step i] ; trA ;
+      e2 = a step starting a data sync ; trB ; e3 = a step completing a data
+      sync ; trC ; e4 = a step of loop t starting a state write
+    with trA, trB, trC ARBITRARY schedules.  Then the object's block has been
+    released by PopFront in the meantime, or the state passed to the store
+    covers the object [o] (= obj_of: absolute block index, block location, end
+    offset off+size, its epoch = the last epoch when the finalizer returned,
+    that epoch's seed): the state's entry number (abs - totalBlocksReleased) is
+    the object's block with write_offset >= off+size, and the object's epoch is
+    among the state's epochs — the seed at position (epoch index - d) of the
+    concatenated epoch_hash_seeds is the epoch's seed, [d] = number of epochs
+    PopFront removed in between ([popsum]).  This holds for EVERY state write
+    started after the sync completion, in particular for the first, by either
+    loop. *)
+Theorem upload_covered_by_next_commit : forall cfg alloc oldest init t0
+    s1 k blk seed s1' abs size off p' trA s2 e2 s2' trB s3 e3 s3' trC s4 e4 s4' t,
+  reachable cfg alloc oldest init t0 s1 ->
+  step cfg s1 (EFinalize k blk seed) = Some (Ok s1') ->
+  nth_error (s_uploads s1) k = Some (Some (PutAt abs, size)) ->
+  put_finalize (PutAt abs) blk size seed (s_pbl s1) = Ok (p', FinOk off) ->
+  run cfg s1' trA = Some (Ok s2) -> step cfg s2 e2 = Some (Ok s2') -> sync_starts s2 e2 = true ->
+  run cfg s2' trB = Some (Ok s3) -> step cfg s3 e3 = Some (Ok s3') -> sync_completes s3 e3 = true ->
+  run cfg s3' trC = Some (Ok s4) -> step cfg s4 e4 = Some (Ok s4') -> act_of s4 e4 = AGetState t ->
+  let o := obj_of (s_pbl s1) p' abs (off + size) in
+  let d := popsum cfg s1' trA + popsum cfg s2' trB + popsum cfg s3' trC in
+  abs < totalReleased (s_pbl s4) \/
+  exists st, written_state s4' t = Some st /\ covers st (abs - totalReleased (s_pbl s4)) o (o_epoch o - d).
+Proof. exact upload_covered_reach. Qed.
+Print Assumptions upload_covered_by_next_commit.
+
+(** release_covered.  Schedule = ... (reaching s1) ; PopFront removing block fb
+    [step i] ; trA = any schedule without a GetPersistentState ; e4 = loop t
+    starts a state write (so: the FIRST state write started after i).  Then
+    (a) fb is among the blocks recorded by that GetPersistentState
+        (blocksToRelease at that moment);
+    (b) fb is absent from the state written: every entry j of the state is
+        block j of the current list, i.e. the block with absolute index
+        totalBlocksReleased(s4) + j, and totalBlocksReleased(s4) exceeds fb's
+        absolute index totalBlocksReleased(s1);
+    (c) whenever, after any further schedule trB without another
+        GetPersistentState, some loop t' runs NotifyPersistentStateWritten,
+        then t' = t (it is that write; it did not fail) and exactly the
+        recorded blocks are appended to releasedLog (Block.Release() calls). *)
+Theorem release_covered : forall cfg alloc oldest init t0 s1 fb rest s1' trA s4 e4 s4' t,
+  reachable cfg alloc oldest init t0 s1 ->
+  blocks (s_pbl s1) = fb :: rest -> step cfg s1 EPopFront = Some (Ok s1') ->
+  run cfg s1' trA = Some (Ok s4) -> no_getstate cfg s1' trA = true ->
+  step cfg s4 e4 = Some (Ok s4') -> act_of s4 e4 = AGetState t ->
+  In (b_loc fb) (toRelease (s_pbl s4))
+  /\ totalReleased (s_pbl s1) < totalReleased (s_pbl s4)
+  /\ (exists st, written_state s4' t = Some st /\
+        forall j e, nth_error (snd st) j = Some e ->
+          exists b, nth_error (blocks (s_pbl s4)) j = Some b /\ bs_loc e = b_loc b)
+  /\ forall trB s5 e5 s5' t',
+       run cfg s4' trB = Some (Ok s5) -> no_getstate cfg s4' trB = true ->
+       step cfg s5 e5 = Some (Ok s5') -> act_of s5 e5 = AWritten t' ->
+       t' = t /\ releasedLog (s_pbl s5') = releasedLog (s_pbl s5) ++ toRelease (s_pbl s4).
+Proof. exact release_covered_reach. Qed.
+Print Assumptions release_covered.
+
+(** ---- LIVENESS in bounded form (no infinite traces): [fair ext] = the
+    extension consists only of steps of the two syncer loops whose I/O call
+    succeeds / whose select takes a ready case, and of clock advances (timer
+    firings).  Weak fairness + finitely many injected failures on an infinite
+    schedule imply that such a stretch eventually occurs; the theorems say
+    that after it the commit has happened, and bound its length. ---- *)
+
+(** every_release_eventually_committed: after ANY schedule prefix that leaves a
+    popped block unreleased there is a fair extension of at most 10 events
+    (<= 3 to let the holder of storeLock finish, one clock advance past a retry
+    sleep, <= 6 of the release loop itself; no minimum-interval wait) after
+    which all blocks awaiting release have been Release()d, in order. *)
+Theorem every_release_eventually_committed : forall cfg alloc oldest init t0 s,
+  reachable cfg alloc oldest init t0 s -> toRelease (s_pbl s) <> nil ->
+  exists ext s', fair ext = true /\ length ext <= 10 /\ run cfg s ext = Some (Ok s')
+    /\ toRelease (s_pbl s') = nil
+    /\ releasedLog (s_pbl s') = (releasedLog (s_pbl s) ++ toRelease (s_pbl s))%list.
+Proof. exact release_eventually_reach. Qed.
+Print Assumptions every_release_eventually_committed.
 
 (** Non-vacuity: an empty store; PushBack, Put + finalizer (creates epoch 0,
     closes the put channel), interval elapses, timer fires, sync ok, state
